@@ -392,6 +392,21 @@ def oracle_classes(case, ctx):
         if isinstance(obj, Raised):
             discs.append(D("class_ctor_raised:%s" % CLASS_OF[name], obj.msg))
             continue
+        if copts and case.get("opts_via_set_params"):
+            # a metric object is configured like any estimator: options set on an existing
+            # (default-constructed, or cloned) object count exactly like constructor arguments
+            from sklearn.base import clone as _clone
+
+            base = sut(cls)
+            if not isinstance(base, Raised):
+                if case["opts_via_set_params"] == 2:
+                    base = _clone(base)
+                obj2 = sut(base.set_params, **copts)
+                if isinstance(obj2, Raised):
+                    discs.append(D("class_set_params_raised:%s:%s" % (CLASS_OF[name], obj2.type), "opts=%s: %s" % (opts, obj2.msg)))
+                    continue
+                obj = obj2
+                ctx.label("options_via_set_params")
         gp = sut(obj.get_params)
         if isinstance(gp, Raised):
             discs.append(unexpected(gp, "get_params"))
@@ -480,7 +495,7 @@ def cases(draw, which):
     return {
         "y_true": yt, "y_pred": yp, "y_bench": yb, "y_train": ytr, "sp": sp,
         "squeeze": draw(st.booleans()), "container": draw(st.sampled_from(["numpy", "pandas"])),
-        "weights": weights, "metrics": names,
+        "weights": weights, "metrics": names, "opts_via_set_params": draw(st.sampled_from([0, 0, 1, 2])),
         "symmetric": draw(st.booleans()), "square_root": draw(st.booleans()),
         "thr": thr,
         "left": draw(st.sampled_from(["squared", "absolute"])),
